@@ -278,3 +278,97 @@ func VerifHarness_C02_O5() { VerifHarness_C01_O8() }
 // C04/O6 — the same bounded system-level run, for causality: committed order
 // extends the ancestry computed from the parent links.
 func VerifHarness_C04_O6() { VerifHarness_C01_O8() }
+
+// checkBlockSignatures (C09 at system level): on every node, every signature
+// recorded on a stored block is by a member of the block's round's validator
+// set, verifies against the node's OWN body of that block, and the body is the
+// one the node delivered (plus the application's answer); a node's own
+// signature is only on blocks it delivered; the anchor carries valid signatures
+// of more than a third of distinct validators of its round and never moves
+// backwards.  anchors[i] holds node i's previous anchor index (-1: none).
+func (s *verifSys) checkBlockSignatures(anchors []int) {
+	for i, nd := range s.nodes {
+		h := nd.c.hg
+		for k, db := range nd.blocks {
+			sb, err := h.Store.GetBlock(db.Index())
+			if err != nil {
+				continue
+			}
+			ps, err := h.Store.GetPeerSet(sb.RoundReceived())
+			if err != nil {
+				panic(err)
+			}
+			valid := 0
+			for _, sig := range sb.GetSignatures() {
+				_, member := ps.ByPubKey[sig.ValidatorHex()]
+				verifAssert("recorded-signature-is-by-a-member-of-the-blocks-round", member)
+				ok, err := sb.Verify(sig)
+				verifAssert("recorded-signature-verifies-against-own-body", err == nil && ok)
+				if member && ok {
+					valid++
+				}
+			}
+			verifAssert("signed-body-carries-the-application-answer", len(sb.StateHash()) == 1 && int(sb.StateHash()[0]) == k+1)
+			if a := h.AnchorBlock; a != nil && *a == sb.Index() {
+				verifAssert("anchor-has-valid-signatures-of-more-than-a-third", valid > ps.TrustCount() || (len(ps.Peers) == 1 && valid >= 1))
+				verifReach("an-anchor-exists")
+			}
+		}
+		// own signatures only on delivered blocks
+		last := h.Store.LastBlockIndex()
+		for bi := 0; bi <= last; bi++ {
+			sb, err := h.Store.GetBlock(bi)
+			if err != nil {
+				continue
+			}
+			if _, err := sb.GetSignature(nd.c.validator.PublicKeyHex()); err == nil {
+				delivered := false
+				for _, db := range nd.blocks {
+					if db.Index() == bi {
+						delivered = true
+					}
+				}
+				verifAssert("own-signature-only-on-delivered-blocks", delivered)
+			}
+		}
+		cur := -1
+		if h.AnchorBlock != nil {
+			cur = *h.AnchorBlock
+		}
+		verifAssert("anchor-index-never-moves-backwards", cur >= anchors[i])
+		anchors[i] = cur
+	}
+}
+
+// C09/O7 — bounded system-level run (as C01/O8, one perturbed exchange) with
+// the block-signature invariants checked after every exchange.
+func VerifHarness_C09_O7() {
+	s := verifNewSys(3)
+	anchors := []int{-1, -1, -1}
+	steps, window := 36, 8
+	if verifTier() > 0 {
+		steps, window = 42, 16
+	}
+	perturbed := false
+	for st := 0; st < steps; st++ {
+		to := st % 3
+		from := (to + 1 + (st/3)%2) % 3
+		limit := -1
+		if !perturbed && st >= 3 && st < 3+window {
+			if verifNondetBool(fmt.Sprintf("drop%d", st)) {
+				perturbed = true
+				continue
+			}
+			if verifNondetBool(fmt.Sprintf("truncate%d", st)) {
+				perturbed = true
+				limit = 1
+			}
+		}
+		if err := s.pull(from, to, limit); err != nil {
+			panic(fmt.Sprintf("step %d: %v", st, err))
+		}
+		s.checkBlockSignatures(anchors)
+	}
+	s.checkInvariants(0)
+	verifReach("end")
+}
